@@ -10,7 +10,7 @@ from . import absapi, core, gen, pipeline, tlc
 
 PKG = 'acme.call.v1'
 MODULE = 'acme.call_v1'
-FIELDS = ['name', 'count', 'flag', 'tags', 'labels', 'inner.name', 'kind', 'class', 'request_id', 'opt_request_id']
+FIELDS = ['name', 'count', 'flag', 'tags', 'labels', 'inner.name', 'kind', 'class', 'blob', 'request_id', 'opt_request_id']
 # concrete values for the abstract variants 1 and 2 (3 = explicitly empty string, ids only)
 VALUES = {
     'name': {1: 'things/a', 2: 'things/b'},
@@ -21,6 +21,7 @@ VALUES = {
     'inner.name': {1: 'in1', 2: 'in2'},
     'kind': {1: 'ALPHA', 2: 'BETA'},
     'class': {1: 'c1', 2: 'c2'},
+    'blob': {1: b'abcd', 2: b'\x00\xffz'},          # bytes: a dict request must carry them verbatim (no base64 round trip)
     'request_id': {1: 'id-one', 2: 'id-two', 3: ''},
     'opt_request_id': {1: 'oid-one', 2: 'oid-two', 3: ''},
 }
@@ -45,7 +46,7 @@ METHODS = {
 def carrier_api():
     req_fields = [dict(name='name'), dict(name='count', type='int32'), dict(name='flag', type='bool'),
                   dict(name='tags', repeated=True), dict(name='labels', type='map:string,string'),
-                  dict(name='inner', type='Inner'), dict(name='kind', type='enum:Kind'), dict(name='class'),
+                  dict(name='inner', type='Inner'), dict(name='kind', type='enum:Kind'), dict(name='class'), dict(name='blob', type='bytes'),
                   dict(name='request_id', uuid4=True), dict(name='opt_request_id', uuid4=True, optional=True),
                   dict(name='req_id_required', uuid4=True, required=True), dict(name='plain_str')]
     dep = dict(name='other/dep/v1/dep.proto', package='other.dep.v1', target=False, imports=[],
@@ -53,7 +54,7 @@ def carrier_api():
                messages=[dict(name='Dep', fields=[dict(name='name'), dict(name='count', type='int32')]),
                          dict(name='DepReq', fields=[dict(name='name'), dict(name='count', type='int32'),
                                                      dict(name='tags', repeated=True), dict(name='labels', type='map:string,string'),
-                                                     dict(name='kind', type='enum:.other.dep.v1.DepKind')])])
+                                                     dict(name='kind', type='enum:.other.dep.v1.DepKind'), dict(name='blob', type='bytes')])])
 
     def m(name, verb, out='Thing', sigs=(), cs=False, ss=False, inp='Req'):
         http = [] if cs else [dict(verb='post', uri=f'/v1/things:{verb}', body='*')]
@@ -109,6 +110,9 @@ def abstract(d, seen_ids=None, presence=()):
             cv = d.get(f)
         if cv is None:
             continue
+        if f == 'blob' and isinstance(cv, str):
+            import base64
+            cv = base64.b64decode(cv)          # MessageToDict renders bytes as base64 text
         if f in ('request_id', 'opt_request_id'):
             if cv == '':
                 val[f] = 3 if f in presence else 0
@@ -143,11 +147,16 @@ def _drive(args):
     return gen.run_driver('harness.drivers.call', root, payload, timeout=1800)
 
 
-def run(chk, cases, nshards=12):
-    """cases: Call.tla cases.  Returns list of (case, observation) with observation = dict(events=[...], error)."""
+def run(chk, cases, nshards=12, ads=False):
+    """cases: Call.tla cases.  Returns list of (case, observation) with observation = dict(events=[...], error).
+    ads=True: the alternative template set (python-gapic-templates=ads-templates,old-naming; sync clients only)."""
     api = carrier_api()
+    module = 'acme.call.v1' if ads else MODULE
     with gen.scratch() as work:
-        req, res = gen.generate_api(api, dict(transport=['grpc', 'rest'], snippets=False), work)
+        o = dict(transport=['grpc', 'rest'], snippets=False)
+        if ads:
+            o.update(templates='ads-templates', old_naming=True)
+        req, res = gen.generate_api(api, o, work)
         root = gen.materialise(res, os.path.join(work, 'out'))
         for fdp in req.proto_file:
             if fdp.name.startswith('other/'):
@@ -157,7 +166,7 @@ def run(chk, cases, nshards=12):
         for s in range(nshards):
             sh = idx[s::nshards]
             if sh:
-                jobs.append((root, dict(api=api, module=MODULE, cases=[dict(i=i, **cases[i]) for i in sh])))
+                jobs.append((root, dict(api=api, module=module, ads=ads, cases=[dict(i=i, **cases[i]) for i in sh])))
         obs = {}
         with ProcessPoolExecutor(min(nshards, 14)) as ex:
             for ok, out, err in ex.map(_drive, jobs):
@@ -239,6 +248,29 @@ def check(chk, cases, label, dep_enum=False):
         chk.violation('trace:' + traces[idx][0], f'CallTrace rejected the recorded call: {info}', dict(trace=t, info=info))
     for k, t in traces[:2]:
         chk.sample(dict(case=k, events=t['events']))
+    # the alternative (Ads) template set: same cases on its sync gRPC and REST clients (it has no asyncio client)
+    rnd = random.Random(chk.seed)
+    sub = [c for c in cases if c['transport'] in ('grpc', 'rest')]
+    if len(sub) > (500 if chk.tier == 'quick' else 4000):
+        sub = rnd.sample(sub, 500 if chk.tier == 'quick' else 4000)
+    apairs = run(chk, sub, nshards=6, ads=True)
+    atraces = []
+    for c, o in apairs:
+        k = 'ads:' + key_of(c)
+        chk.case(k, nontrivial=True)
+        if o.get('error'):
+            chk.violation(k, 'driver error: ' + o['error'], dict(case=c, obs=o)); continue
+        d = compare(c, o)
+        if d:
+            chk.violation('replay:' + k, '; '.join(d[:5]), dict(case=c, obs=o))
+        atraces.append((k, trace_of(c, o)))
+    accepted, rejected, runs = tlc.validate_all('CallTrace', _cfg('CallTrace.cfg', dep_enum), [t for _, t in atraces], timeout=1500)
+    for r in runs:
+        chk.states += r.distinct; chk.transitions += r.generated
+    chk.tlc_runs.append(dict(label=f'CallTrace batch ({label}, ads templates)', runs=len(runs), accepted=accepted, rejected=len(rejected)))
+    chk.traces += accepted
+    for idx, t, info in rejected:
+        chk.violation('trace:' + atraces[idx][0], f'CallTrace rejected the recorded call (ads templates): {info}', dict(trace=t, info=info))
     return pairs
 
 
